@@ -109,7 +109,7 @@ class LoginDevice:
                  user_prompt=b"Username: ", pass_prompt=b"Password: ", phrase_prompt=b"Enter passphrase for key '/home/u/.ssh/id_rsa': ",
                  pre=b"", banner=b"", shell_prompt=b"r1#", nl=b"\n", echo=True, reject_msg=b"Login incorrect",
                  max_tries=3, after_max="close", needs_kick=0, fatal=None, ssh_user_host=b"admin@r1",
-                 phrase_tries=3, reprompt_nl=True, reject_to="user"):
+                 phrase_tries=3, reprompt_nl=True, reject_to="user", reject_first=0):
         self.flavour = flavour
         self.username, self.password, self.passphrase = username, password, passphrase
         self.user_prompt, self.pass_prompt, self.phrase_prompt = user_prompt, pass_prompt, phrase_prompt
@@ -117,6 +117,7 @@ class LoginDevice:
         self.reject_msg, self.max_tries, self.after_max = reject_msg, max_tries, after_max
         self.needs_kick, self.fatal, self.ssh_user_host = needs_kick, fatal, ssh_user_host
         self.phrase_tries, self.reprompt_nl = phrase_tries, reprompt_nl
+        self.reject_first = reject_first    # the first n password submissions are rejected even when correct (server re-prompts)
         self.reject_to = reject_to          # telnet: after a rejection prompt for the username again, or only the password
         self.state = "init"
         self.name = b""
@@ -211,6 +212,8 @@ class LoginDevice:
             return self._emit([("", self.nl), ("pprompt", self.pass_prompt)])
         if st == "pass":
             ok = line == self.password and (self.flavour == "ssh" or self.name == self.username)
+            if ok and self.tries < self.reject_first:
+                ok = False
             if ok:
                 return self._shell()
             self.tries += 1
